@@ -1,4 +1,50 @@
 import OsloModel.Proto
+import OsloModel.Split
+open Oslo Oslo.Split Oslo.Proto
 
--- stub: replaced by the real driver of this property group
-def main : IO Unit := Oslo.Proto.serve (fun _ => "bad-request")
+/-
+Requests (fields TAB-separated, strings hex-encoded UTF-8, "-" = empty string):
+  path   <hex path> <minsegs> <maxsegs | N> <0|1>   ->  ok:<seg>,<seg>,…  (seg = hex | - | N)  |  ValueError | …
+  commas <hex value>                                ->  ok:<hex>,<hex>,…  |  ValueError | …
+  split  <hex s> <maxsplit>                         ->  <hex>,<hex>,…      (model of s.split('/', maxsplit))
+  tabs   <hex s>                                    ->  <hex>              (model of s.expandtabs())
+-/
+
+def showErr : Err → String
+  | .valueError => "ValueError"
+  | .indexError => "IndexError"
+  | .outOfFuel => "OutOfFuel"
+
+def showSeg : Seg → String
+  | none => "N"
+  | some s => hexChars s
+
+def optNat (s : String) : Option (Option Nat) :=
+  if s = "N" then some none else (s.toNat?).map some
+
+def handle : List String → String
+  | ["path", p, mn, mx, rwl] =>
+    match unhexChars p, mn.toNat?, optNat mx, (if rwl = "0" then some false else if rwl = "1" then some true else none) with
+    | some p, some mn, some mx, some rwl =>
+      match splitPath p mn mx rwl with
+      | .ok segs => "ok:" ++ String.intercalate "," (segs.map showSeg)
+      | .error e => showErr e
+    | _, _, _, _ => "bad-request"
+  | ["commas", v] =>
+    match unhexChars v with
+    | some v =>
+      match splitByCommas v with
+      | .ok items => "ok:" ++ String.intercalate "," (items.map hexChars)
+      | .error e => showErr e
+    | none => "bad-request"
+  | ["split", s, n] =>
+    match unhexChars s, n.toNat? with
+    | some s, some n => String.intercalate "," ((pySplit '/' n s).map hexChars)
+    | _, _ => "bad-request"
+  | ["tabs", s] =>
+    match unhexChars s with
+    | some s => hexChars (expandTabs 0 s)
+    | none => "bad-request"
+  | _ => "bad-request"
+
+def main : IO Unit := serve handle
